@@ -299,7 +299,7 @@ pub fn property(_tier: Tier) -> Property {
             Box::new(RandomPart {
                 name: "greeting",
                 rule: "proptest: greeting bytes = valid (numeric versions, arbitrary UTF-8 versions, versions beyond 4 KiB and 8-20 KiB, lines that are an exact multiple of 536/1024/1448/1460/1500/9000/... bytes, versions of 2^k+-1 bytes up to 4 MiB) | one byte of the prefix flipped | empty version | invalid UTF-8 | wrong case / missing blank | proper prefix of a valid greeting | empty; one generated segmentation of the greeting bytes themselves (random cuts over its whole length, fixed chunks incl. network read sizes, one-byte); blocking / async / async+pending connect; judged by the reference greeting classifier: Ok(version verbatim) iff 'OK MPD <non-empty utf8>\\n', InvalidMessage for a malformed line, UnexpectedEof for a viable proper prefix. non-trivial = segmented or not a valid greeting",
-                cases: (20_000, 5_000_000),
+                cases: (20_000, 1_500_000),
                 strategy: Box::new(|_t| {
                     greeting_bytes(true)
                         .prop_flat_map(|bytes| {
